@@ -76,32 +76,50 @@ theorem emit_then_pair (ps : List (A × D)) :
 
 /-! ### the default slot of an argument (fix 2b8e4d5 in `RewriteAtQuery.visit_FunctionDef`) -/
 
-/-- `pos - (len(args) - len(defaults))`, none when the argument has no default -/
-def slotOf (n m pos : Nat) : Option Nat := if pos < n - m then none else some (pos - (n - m))
+/-- `pos - (len(args.args) - len(defaults))` computed over the integers, none when negative (the argument has no
+    default). With positional-only parameters that carry defaults `len(defaults)` exceeds `len(args.args)` and the
+    difference is NEGATIVE: the slot then lies to the right of the position. -/
+def slotOf (n m pos : Nat) : Option Nat := if pos + m < n then none else some (pos + m - n)
 
-/-- **patching the slot of argument `pos` changes the default Python pairs with argument `pos`, and no other**:
-    after `defaults[slot] = v`, argument `i` has default `v` when `i = pos` and its old default otherwise
-    (any number of arguments, any number of stored defaults) -/
-theorem pyDefault_set (n : Nat) (ds : List (Option D)) (pos slot : Nat) (v : D) (hm : ds.length ≤ n) (hp : pos < n)
-    (hs : slotOf n ds.length pos = some slot) (i : Nat) (hi : i < n) :
-    pyDefault n (ds.set slot (some v)) i = if i = pos then some v else pyDefault n ds i := by
+/-- on signatures without positional-only parameters this is the familiar `pos - (n - m)` -/
+theorem slotOf_le (n m pos : Nat) (h : m ≤ n) : slotOf n m pos = if pos < n - m then none else some (pos - (n - m)) := by
+  unfold slotOf
+  by_cases h1 : pos + m < n
+  · have : pos < n - m := by omega
+    simp [h1, this]
+  · have : ¬ pos < n - m := by omega
+    simp only [h1, this, if_false]
+    congr 1; omega
+
+/-- **patching the slot of argument `pos` changes the default Python pairs with that argument, and no other**: `p`
+    positional-only parameters come before the `n` ordinary ones, the `m = ds.length ≤ p + n` stored defaults belong to
+    the LAST `m` of these `p + n`. After `defaults[slot] = v` the parameter at overall position `i` has default `v` when
+    it is the addressed one (`i = p + pos`) and its old default otherwise. -/
+theorem pyDefault_set (p n : Nat) (ds : List (Option D)) (pos slot : Nat) (v : D) (hm : ds.length ≤ p + n) (hp : pos < n)
+    (hs : slotOf n ds.length pos = some slot) (i : Nat) (hi : i < p + n) :
+    pyDefault (p + n) (ds.set slot (some v)) i = if i = p + pos then some v else pyDefault (p + n) ds i := by
   unfold slotOf at hs
-  by_cases hlt : pos < n - ds.length
+  by_cases hlt : pos + ds.length < n
   · simp [hlt] at hs
   · simp only [hlt, if_false, Option.some.injEq] at hs
     subst hs
     unfold pyDefault
     simp only [List.length_set]
-    by_cases hil : i < n - ds.length
-    · have : i ≠ pos := by omega
+    by_cases hil : i < p + n - ds.length
+    · have : i ≠ p + pos := by omega
       simp [hil, this]
     · simp only [hil, if_false]
-      by_cases hip : i = pos
+      by_cases hip : i = p + pos
       · subst hip
-        have hb : i - (n - ds.length) < ds.length := by omega
-        simp [List.getElem?_set_self hb]
-      · have hne : pos - (n - ds.length) ≠ i - (n - ds.length) := by omega
+        have hb : p + pos - (p + n - ds.length) < ds.length := by omega
+        have he : pos + ds.length - n = p + pos - (p + n - ds.length) := by omega
+        simp [he, List.getElem?_set_self hb]
+      · have hne : pos + ds.length - n ≠ i - (p + n - ds.length) := by omega
         simp [hip, List.getElem?_set_ne hne]
+
+/-- positional-only parameters with defaults: `def connect(host, port=5432, /, timeout=10.0, mode="slow")` has
+    `len(args.args) - len(defaults) = 2 - 3 < 0`; `timeout` (position 0) owns slot 1, not slot 0 (which is `port`'s) -/
+theorem slot_posonly_witness : slotOf 2 3 0 = some 1 ∧ slotOf 2 3 1 = some 2 := by decide
 
 /-- the old code used the position among the arguments as the slot (counted from the left): with a leading argument
     that has no default, the default of ANOTHER argument was overwritten -/
